@@ -286,6 +286,11 @@ structure Cfg where
   strict : Bool := false
   path : Bytes := []
   delims : List Bytes := []
+  /-- NOT part of the semantics and without a counterpart in the Go code (which iterates a range lazily, without
+      limit): the largest `b - a` for which the EXECUTABLE model materialises the items of a loop over `(a..b)`;
+      beyond it `loopItems` answers `unmodelled`. The driver runs with the default; the theorems are stated for
+      every value of it (`Proofs/Budget.lean`: raising it never changes an answer that was given). -/
+  budget : Int := 100000
   deriving Repr, Inhabited
 
 structure RS where
@@ -381,8 +386,10 @@ def rangeItems (a b : Int) : List GoVal :=
 /-- `makeIterator` (after the repairs of D9 and D15): the items a loop visits. A map is visited in the
     order of `values.SortedMapKeys` (`MapOrder.sortedMapEntries`: the entry list of the value is in no
     particular order), an `IterationKeyedMap` in the order of `sort.Strings` of its keys. -/
-def loopItems : GoVal → Res Cause (List GoVal)
-  | .range a b => if b - a > 100000 then .unmodelled "huge range" else .ok (rangeItems a b)
+def loopItems (budget : Int) : GoVal → Res Cause (List GoVal)
+  -- the Go code iterates a range lazily and has no limit: `budget` (`Cfg.budget`) only keeps the executable model
+  -- from building a huge list; every theorem holds for every budget
+  | .range a b => if b - a > budget then .unmodelled "huge range" else .ok (rangeItems a b)
   | .nil => .ok []
   | .keyedMap kvs => .ok ((MapOrder.sortedFields kvs).map fun kv => GoVal.str kv.1)   -- makeIterationKeyedMap: sort.Strings(keys)
   | .mapSlice kvs => .ok (kvs.map fun kv => mkPair kv.1 kv.2)
@@ -607,12 +614,12 @@ def loopDispatch (P : Prims) (loc : Loc) (tablerow : Bool) (var : Bytes) (colsE 
 /-- the renderer built by `loopTagCompiler`, given the rendering of its body and of its `else`
     clause (`tooMany`: the block has more than one clause). Order as in the Go code: collection,
     iterator, modifiers, clause-count check, `else` when nothing is selected, iterations, restore. -/
-def loopRun (P : Prims) (path : Bytes) (loc : Loc) (tablerow : Bool) (var : Bytes) (e : Expr) (mods : LoopMods)
+def loopRun (budget : Int) (P : Prims) (path : Bytes) (loc : Loc) (tablerow : Bool) (var : Bytes) (e : Expr) (mods : LoopMods)
     (bodyM : M Status) (tooMany : Bool) (elseM : Option (M Status)) : M Status :=
   wrapAt path loc (do
     let env ← M.getEnv
     let v ← M.ofRes (evaluate P env e)
-    let items0 ← M.ofRes (loopItems v)
+    let items0 ← M.ofRes (loopItems budget v)
     let off ← intModifier P mods.offset loc
     let lim ← intModifier P mods.limit loc
     if tooMany then M.fail (.plain (.other "forElse")) else
@@ -649,9 +656,9 @@ def renderNode (c : RCtx) : Node → M Status
   | .loop line tablerow var e mods body clauses =>
     let bodyM := renderBlockBody c body
     match clauses with
-    | [] => loopRun c.P c.cfg.path ⟨line, true⟩ tablerow var e mods bodyM false none
-    | [els] => loopRun c.P c.cfg.path ⟨line, true⟩ tablerow var e mods bodyM false (some (renderBlockBody c els))
-    | _ :: _ :: _ => loopRun c.P c.cfg.path ⟨line, true⟩ tablerow var e mods bodyM true none
+    | [] => loopRun c.cfg.budget c.P c.cfg.path ⟨line, true⟩ tablerow var e mods bodyM false none
+    | [els] => loopRun c.cfg.budget c.P c.cfg.path ⟨line, true⟩ tablerow var e mods bodyM false (some (renderBlockBody c els))
+    | _ :: _ :: _ => loopRun c.cfg.budget c.P c.cfg.path ⟨line, true⟩ tablerow var e mods bodyM true none
   | .cycle line group v0 rest =>
     let loc : Loc := ⟨line, true⟩
     wrapFailAt c.cfg.path loc (do
